@@ -313,6 +313,20 @@ func init() {
 		"vxLog": func(fr *frame, a []value) (value, bool) { return nil, true },
 		"vxStop": func(fr *frame, a []value) (value, bool) { panic(pathEnd{}) },
 		"vxTier": func(fr *frame, a []value) (value, bool) { return os.Getenv("VX_TIER"), true },
+		"vxLabelOn": func(fr *frame, a []value) (value, bool) {
+			// whether assertions with this label prefix are checked in this run
+			pre := argStr(a[0])
+			ls := fr.i.ex.cfg.Labels
+			if len(ls) == 0 {
+				return true, true
+			}
+			for _, l := range ls {
+				if strings.HasPrefix(l, pre) || strings.HasPrefix(pre, l) {
+					return true, true
+				}
+			}
+			return false, true
+		},
 		"vxIsSymbolic": func(fr *frame, a []value) (value, bool) { return true, true },
 		"vxAtoi": func(fr *frame, a []value) (value, bool) {
 			// oracle-side decimal parse: (value, ok)
